@@ -185,13 +185,20 @@ def update_register_assignments_to_set_bitmap(
                     index = bitmap_backed.index(op.dest)
                     new_ops.append(op)
                     reg = bitmap_registers[index // BITMAP_BITS]
-                    new = IntOp(
-                        bitmap_rprimitive,
-                        reg,
-                        Integer(1 << (index & (BITMAP_BITS - 1)), bitmap_rprimitive),
-                        IntOp.OR,
-                        op.line,
-                    )
+                    bit = 1 << (index & (BITMAP_BITS - 1))
+                    if isinstance(op.src, LoadErrorValue) and op.src.undefines:
+                        # "del x": the variable becomes undefined again, so clear its bit
+                        new = IntOp(
+                            bitmap_rprimitive,
+                            reg,
+                            Integer(((1 << BITMAP_BITS) - 1) & ~bit, bitmap_rprimitive),
+                            IntOp.AND,
+                            op.line,
+                        )
+                    else:
+                        new = IntOp(
+                            bitmap_rprimitive, reg, Integer(bit, bitmap_rprimitive), IntOp.OR, op.line
+                        )
                     new_ops.append(new)
                     new_ops.append(Assign(reg, new))
                 else:
